@@ -208,7 +208,7 @@ def site_lines(doc, before_state, lab):
 
 
 self_kinds = {}
-VALUE_KINDS = ['attr', 'attr', 'attr', 'attr', 'rename', 'rename', 'save', 'contributors', 'default_scene', 'matinputs', 'matinputs', 'matbind']
+VALUE_KINDS = ['attr', 'attr', 'attr', 'attr', 'rename', 'rename', 'save', 'contributors', 'default_scene', 'matinputs', 'matinputs', 'matbind', 'srcdata', 'srcdata', 'save']
 
 
 def capture(doc, lab):
